@@ -3,6 +3,7 @@
   All statements are about the controller model and hold for EVERY handler instance.
 -/
 import PyIkev2.Proofs.Machine
+import PyIkev2.Proofs.WholeSad2
 
 namespace PyIkev2.Props.C16
 open PyIkev2 PyIkev2.Impl
@@ -130,5 +131,48 @@ theorem c16_status_is_table (H : Handlers τ) (t : τ) (c : Ctl) (now : Nat) :
   simp only [loopIter, Bool.false_and, Bool.or_false, List.append_nil, Nat.add_zero]
   simp only [Bool.false_eq_true, if_false, or_false]
   split <;> (try split) <;> (try split) <;> simp_all
+
+/-! ### the table over whole histories of the whole model (shell + concrete handlers)
+
+  A by-product of the C10 history theorem (Proofs/WholeSad2.lean): its invariant keeps the SPIs of all table entries and of all pending
+  successors pairwise different.  Hence, for every history — rekeys, retransmitted rekey and delete messages, simultaneous initiations,
+  any datagram contents — no IKE_SA is ever listed twice and a successor is registered exactly once. -/
+
+theorem c16_whole_model_never_lists_an_ike_sa_twice (evs : List (Nat × LoopEv)) (w : XWorld) (c : Ctl) (h0 : Sync2 (w, c))
+    (hstart : AllListed c.sas) (hev : ∀ x ∈ evs, EvCoherent x.2) (hclash : (wholeRun2 (w, c) evs).1.clash = false) :
+    ((wholeRun2 (w, c) evs).2.sas.map (·.core.mySpi)).Nodup ∧
+    (∀ s ∈ (wholeRun2 (w, c) evs).2.sas, ¬ inPost s.core.st → ∀ n, s.succ = some n →
+      n.mySpi ∉ (wholeRun2 (w, c) evs).2.sas.map (·.core.mySpi)) := by
+  rcases (wholeRun2_sync evs (w, c) ⟨h0, hstart⟩ hev).1 with h | h
+  · rw [hclash] at h; cases h
+  · have hnd := h.spis
+    constructor
+    · unfold allSpis at hnd
+      have hsub : ((wholeRun2 (w, c) evs).2.sas.map (·.core.mySpi)).Sublist
+          ((wholeRun2 (w, c) evs).2.sas.flatMap fun s => s.core.mySpi :: pendSpi s) := by
+        induction (wholeRun2 (w, c) evs).2.sas with
+        | nil => exact List.Sublist.slnil
+        | cons s rest ih =>
+          simp only [List.map_cons, List.flatMap_cons, List.cons_append]
+          exact List.Sublist.cons₂ _ ((ih).trans (List.sublist_append_right _ _))
+      exact hnd.sublist hsub
+    · -- a pending successor's SPI is none of the table's: the two occurrences in `allSpis` would be a duplicate
+      intro s hs hnp n hn hin
+      obtain ⟨x, hx, hxs⟩ := List.mem_map.mp hin
+      generalize (wholeRun2 (w, c) evs).2.sas = tbl at hs hx hnd
+      induction tbl with
+      | nil => cases hs
+      | cons y rest ih =>
+        rw [allSpis_cons, List.nodup_append] at hnd
+        have hpend : n.mySpi ∈ pendSpi s := by unfold pendSpi; rw [if_neg hnp, hn]; exact List.mem_singleton.mpr rfl
+        rcases List.mem_cons.mp hs with rfl | hs'
+        · rcases List.mem_cons.mp hx with rfl | hx'
+          · have := hnd.1
+            rw [List.nodup_cons] at this
+            exact this.1 (hxs ▸ hpend)
+          · exact hnd.2.2 n.mySpi (List.mem_cons_of_mem _ hpend) _ (mem_allSpis_core hx') hxs.symm
+        · rcases List.mem_cons.mp hx with rfl | hx'
+          · exact hnd.2.2 x.core.mySpi (List.mem_cons_self ..) _ (mem_allSpis_pend hs' hnp hn) hxs
+          · exact ih hs' hx' hnd.2.1
 
 end PyIkev2.Props.C16
